@@ -362,8 +362,8 @@ def rec_obj_remover(parent, child):
             return True
         if isinstance(obj, Collection):
             if rec_obj_remover(obj, child):
-                break
-    return None
+                return True
+    return False
 
 
 def get_subclasses(cls, recursive=False):
